@@ -18,7 +18,16 @@ type Doc struct {
 
 // Document draws a document.
 func Document(r *rand.Rand, maxDepth, maxBlocks, maxLines int, st Stats) Doc {
-	g := &Gen{R: r, MaxDepth: maxDepth, MaxBlock: maxBlocks, MaxLines: maxLines, St: st}
+	return document(&Gen{R: r, MaxDepth: maxDepth, MaxBlock: maxBlocks, MaxLines: maxLines, St: st})
+}
+
+// DocumentNoTabs draws a document that contains no tab character (for relations whose statement excludes tabs).
+func DocumentNoTabs(r *rand.Rand, maxDepth, maxBlocks, maxLines int, st Stats) Doc {
+	return document(&Gen{R: r, MaxDepth: maxDepth, MaxBlock: maxBlocks, MaxLines: maxLines, St: st, NoTabs: true})
+}
+
+func document(g *Gen) Doc {
+	maxBlocks := g.MaxBlock
 	n := 1 + g.pick(maxBlocks)
 	if n > 6 && g.chance(1, 2) {
 		n = 1 + g.pick(6)
